@@ -791,6 +791,14 @@ fn run_conc_scenario(
         if unexpected && stats.final_mismatch.len() < 5 {
             stats.final_mismatch.push(json!({"scenario": sc["name"], "schedule": res.taken, "memory": fin, "expected": sc["expect"]}));
         }
+        // a unique index never lists two owners for one key - in memory or after flush + cold load
+        if uniq {
+            let two = |st: &Value| content(st).iter().any(|ids| ids.as_array().is_some_and(|a| a.len() > 1));
+            if (two(&fin) || two(&loaded)) && stats.final_mismatch.len() < 5 {
+                stats.final_mismatch.push(json!({"scenario": sc["name"], "schedule": res.taken, "memory": fin,
+                                                 "unique_violated": true}));
+            }
+        }
         if content(&fin) != content(&loaded) || fin["bt"] != loaded["bt"] {
             if stats.final_mismatch.len() < 5 {
                 stats.final_mismatch.push(json!({"scenario": sc["name"], "schedule": res.taken, "memory": fin, "loaded": loaded}));
